@@ -741,7 +741,7 @@ class Interp:
         if leaf[0] == "int":
             return I(leaf[1])
         if leaf[0] == "dct":
-            return Dct({k: Sq(v) for k, v in leaf[1]})
+            return Dct({k: (v[1] if v[0] == "obj" else Sq(v)) for k, v in leaf[1]})
         return Sq(leaf)
 
     # -- loops
@@ -983,7 +983,14 @@ class Interp:
     def cond_term(self, test, env):
         if isinstance(test, ast.Compare) and len(test.ops) == 1 and isinstance(test.ops[0], (ast.In, ast.NotIn)):
             x = self.topoly(self.ev(test.left, env))
-            d = self.dom_of(self.ev(test.comparators[0], env))
+            cont = test.comparators[0]
+            contv = self.ev(cont, env)
+            if isinstance(contv, E):
+                # `k in set(refs)` / a name bound to set(refs): membership does not depend on the order of the set
+                cn = contv.node
+                if isinstance(cn, ast.Call) and isinstance(cn.func, ast.Name) and cn.func.id in ("set", "frozenset") and len(cn.args) == 1 and not cn.keywords:
+                    contv = self.ev(cn.args[0], env)
+            d = self.dom_of(contv)
             if x is not None and d is not None:
                 return ("notin" if isinstance(test.ops[0], ast.NotIn) else "in", x, d)
         if isinstance(test, ast.UnaryOp) and isinstance(test.op, ast.Not):
@@ -1110,7 +1117,7 @@ class Interp:
         if isinstance(v, (Vec, RefL, Tup)):
             return ("blk", self.as_seq(v))
         if isinstance(v, Dct):
-            return ("dct", tuple(sorted((k, self.as_seq(x)) for k, x in v.items.items())))
+            return ("dct", tuple(sorted((k, ("obj", x) if isinstance(x, ObjVal) else self.as_seq(x)) for k, x in v.items.items())))
         if isinstance(v, E):
             if isinstance(v.node, ast.JoinedStr):
                 parts = []
